@@ -4,6 +4,7 @@
 mod cal;
 mod fx;
 mod named;
+mod numvm;
 mod util;
 
 fn main() {
@@ -20,6 +21,7 @@ fn main() {
         "cal" => cal::main(&args[1..]),
         "named" => named::main(&args[1..]),
         "fx" => fx::main(&args[1..]),
+        "numvm" => numvm::main(&args[1..]),
         other => {
             eprintln!("unknown engine {}", other);
             std::process::exit(2);
